@@ -85,10 +85,13 @@ pub fn gen_content(rng: &mut Rng, ncas: usize, nfiles: usize, dist: u64, allow_r
         let nseg = match rng.below(6) { 0 => 0, 1 => 1, _ => rng.range(1, 12) } as usize;
         let (ver, meta) = (rng.chance(1, 2), rng.chance(1, 2));
         let mut segs = Vec::new();
+        // one file in twelve is huge: every segment close to the u32 limit, so that the file's bytes (and the shard's totals) pass 2^32
+        let huge = rng.chance(1, 12);
         for _ in 0..nseg {
             let ch = if !cas.is_empty() && rng.chance(3, 4) { cas[rng.below(cas.len() as u64) as usize].metadata.cas_hash } else { rand_hash(rng) };
             let s = rng.below(20) as u32; let e = s + rng.range(1, 20) as u32;
-            segs.push(FileDataSequenceEntry::new(ch, rng.range(1, 5_000_000) as u32, s, e));
+            let bytes = if huge { rng.range(1 << 31, u32::MAX as u64) as u32 } else { rng.range(1, 5_000_000) as u32 };
+            segs.push(FileDataSequenceEntry::new(ch, bytes, s, e));
         }
         let verification = if ver { (0..nseg).map(|_| FileVerificationEntry::new(rand_hash(rng))).collect() } else { vec![] };
         let f = MDBFileInfo { metadata: FileDataSequenceHeader::new(h, nseg, ver, meta), segments: segs, verification, metadata_ext: if meta { Some(FileMetadataExt::new(rand_hash(rng))) } else { None } };
